@@ -5,7 +5,7 @@ Mirrors
   /repo/traits/observation/parsing.py      _handle_series (20-37), _handle_parallel (40-57),
         _handle_trait (60-78), _handle_anytrait (81-95), _handle_metadata (98-116),
         _handle_items (119-144), _handle_tree (147-174), parse (177-204), compile_str (207-220)
-  /repo/traits/observation/expression.py   SingleObserverExpression._create_graphs (291-294),
+  /repo/traits/observation/expression.py   SingleObserverExpression._create_graphs (290-296, with fix 4a0994c),
         SeriesObserverExpression._create_graphs (323-325),
         ParallelObserverExpression._create_graphs (354-357), trait/metadata/anytrait/
         list_items/dict_items/set_items constructors (377-540), compile_expr (543-555)
@@ -115,13 +115,27 @@ def unique : Forest → Bool
   | nil => true
   | cons o k r => !(r.any (fun o' k' => graphEq o k o' k')) && unique r
 
+def filter (p : Observer → Forest → Bool) : Forest → Forest
+  | nil => nil
+  | cons o k r => if p o k then cons o k (filter p r) else filter p r
+
+/-- `list(dict.fromkeys(branches))` (expression.py:292, fix 4a0994c): the first
+of each class of equal graphs, in order of first occurrence.  (Keeping the head
+and dropping its equals from the de-duplicated tail is the same list when
+`ObserverGraph.__eq__` is an equivalence, which dict semantics presuppose.) -/
+def dedupe : Forest → Forest
+  | nil => nil
+  | cons o k r => cons o k ((dedupe r).filter (fun o' k' => !graphEq o k o' k'))
+
 end Forest
 
-/-- `_create_graphs(branches)`.  The only failure is the ValueError of
-`ObserverGraph.__init__` ("Not all children are unique."). -/
+/-- `_create_graphs(branches)`.  The only possible failure is the ValueError of
+`ObserverGraph.__init__` ("Not all children are unique."), which cannot occur
+since the branches are de-duplicated first (Lemmas/DslCompile.lean `create_total`). -/
 def create : Expr → Forest → Except Exc Forest
-  | .single o, branches =>                        -- expression.py:291-294
-    if branches.unique then .ok (.cons o branches .nil) else .error .valueError
+  | .single o, branches =>                        -- expression.py:290-296
+    let b := branches.dedupe                      -- branches = list(dict.fromkeys(branches))
+    if b.unique then .ok (.cons o b .nil) else .error .valueError   -- ObserverGraph.__init__
   | .series first second, branches =>             -- expression.py:323-325
     match create second branches with
     | .error e => .error e
@@ -144,7 +158,15 @@ def compileChars (uw : Char → Bool) (s : List Char) : Except Exc Forest :=
   | none => .error .valueError
   | some c => compileExpr (toExpr c true)
 
-/-- The same without the uniqueness check (used to characterise when `create` fails). -/
+/-- What `create` returns (it never fails): the graphs with de-duplicated children. -/
+def createD : Expr → Forest → Forest
+  | .single o, branches => .cons o branches.dedupe .nil
+  | .series first second, branches => createD first (createD second branches)
+  | .parallel left right, branches => createD left branches ++ createD right branches
+
+/-- The graphs as written, without de-duplication (what the code built before
+fix 4a0994c when it did not raise); equal to `createD` when no node has two
+equal children. -/
 def createU : Expr → Forest → Forest
   | .single o, branches => .cons o branches .nil
   | .series first second, branches => createU first (createU second branches)
